@@ -145,3 +145,15 @@ package fsm
 //@   ensures[accounted] err == nil ==> allTokens(s) == old(allTokens(s)) + distributed
 //@   ensures[failsafe] err != nil ==> allTokens(s) == old(allTokens(s))
 //@   ensures[frame] supTotal(s) == old(supTotal(s)) && poolBal() == old(poolBal()) && poolSum(s) == old(poolSum(s))
+
+// ---- C13: who is eligible for a committee --------------------------------------------------------------
+// inCommittees(cs, id): chain id occurs in the validator's committee list
+//@ spec func inCommittees(cs []uint64, id int) bool = exists k int :: 0 <= k && k < len(cs) && cs[k] == id
+
+//@ func (*Validator).PassesFilter
+//@   pure
+//@   ensures[unstaking] ok ==> (f.Unstaking == lib.FilterOption_MustBe ==> x.UnstakingHeight != 0) && (f.Unstaking == lib.FilterOption_Exclude ==> x.UnstakingHeight == 0)
+//@   ensures[paused] ok ==> (f.Paused == lib.FilterOption_MustBe ==> x.MaxPausedHeight != 0) && (f.Paused == lib.FilterOption_Exclude ==> x.MaxPausedHeight == 0)
+//@   ensures[delegate] ok ==> (f.Delegate == lib.FilterOption_MustBe ==> x.Delegate) && (f.Delegate == lib.FilterOption_Exclude ==> !x.Delegate)
+//@   ensures[committee] ok ==> (f.Committee != 0 ==> inCommittees(x.Committees, f.Committee))
+//@   ensures[complete] !ok ==> !((f.Unstaking == lib.FilterOption_MustBe ==> x.UnstakingHeight != 0) && (f.Unstaking == lib.FilterOption_Exclude ==> x.UnstakingHeight == 0) && (f.Paused == lib.FilterOption_MustBe ==> x.MaxPausedHeight != 0) && (f.Paused == lib.FilterOption_Exclude ==> x.MaxPausedHeight == 0) && (f.Delegate == lib.FilterOption_MustBe ==> x.Delegate) && (f.Delegate == lib.FilterOption_Exclude ==> !x.Delegate) && (f.Committee != 0 ==> inCommittees(x.Committees, f.Committee)))
